@@ -574,6 +574,8 @@ def run(ctx):
     cdir = os.path.join(core.VERIF, "corpus", "C04")
     if os.path.isdir(cdir):
         for fn in sorted(os.listdir(cdir)):
+            if not fn.endswith(".txt"):
+                continue   # corpus/C04/fixes/ holds the proposed patches
             for l in open(os.path.join(cdir, fn)):
                 t = l.split()
                 if len(t) >= 3 and not l.startswith("#"):
